@@ -318,6 +318,33 @@ def run(chk):
     addc = [gp.node_of(n) for n in walk_body(pm) if isinstance(n, ast.Call) and u(n.func) == "self._add"]
     chk.ob("O7.7", "_put_metric stores the record on every normal path", bool(addc) and gp.must_pass(gp.entry, addc), pm, "")
 
+    # ---- O7.10 ES-backed store buffer -------------------------------------------------------------------------------------------------------------------------
+    chk.rule("O7.10", "ES-backed store: every record is appended to the buffer; flush sends the whole buffer through the guarded bulk call and empties it only after the send returned; "
+             "its hand-over is None (records go to Elasticsearch directly, nothing to add twice)", 4,
+             "records dropped before being sent, or re-sent on the next flush (duplicates) with the ES metrics store")
+    EM = met.cls("EsMetricsStore")
+    emm = met.methods(EM)
+    ea = emm.get("_add")
+    ok = ea is not None and any(isinstance(n, ast.Call) and u(n.func) == "self._docs.append" and u(n.args[0]) == params_of(ea)[1] and not guards(n) for n in walk_body(ea))
+    chk.ob("O7.10", "_add appends the record to the buffer", ok, ea if ea is not None else EM, "")
+    fl = emm.get("flush")
+    if fl is None:
+        raise AnchorMissing("EsMetricsStore.flush")
+    gfl = cfg_of(fl)
+    bi = [n for n in walk_body(fl) if isinstance(n, ast.Call) and last_attr(n.func) == "bulk_index"]
+    rs = [n for n in walk_body(fl) if isinstance(n, (ast.Assign, ast.AugAssign)) and any(is_self_attr(x, "_docs") and isinstance(x.ctx, ast.Store) for t in (n.targets if isinstance(n, ast.Assign) else [n.target]) for x in ast.walk(t))]
+    ok = len(bi) == 1 and arg_of(bi[0], 1, "items") is not None and u(arg_of(bi[0], 1, "items")) == "self._docs" and [u(t) for t, pol in guards(bi[0]) if pol] == ["self._docs"]
+    chk.ob("O7.10", "flush sends the whole buffer (guarded only by non-emptiness)", ok, bi[0] if bi else fl, "")
+    ok = len(rs) == 1 and isinstance(rs[0], ast.Assign) and isinstance(rs[0].value, ast.List) and not rs[0].value.elts and bool(bi) and not gfl.path_exists(gfl.node_of(rs[0]), gfl.node_of(bi[0])) \
+        and gfl.must_pass(gfl.node_of(bi[0]), [gfl.node_of(rs[0])], normal_only=True)
+    chk.ob("O7.10", "buffer emptied after (and only after) the send returned", ok, rs[0] if rs else fl, "")
+    te2 = emm.get("to_externalizable")
+    ok = te2 is not None and all(isinstance(n.value, ast.Constant) and n.value.value is None for n in walk_body(te2) if isinstance(n, ast.Return))
+    chk.ob("O7.10", "hand-over representation is None", ok, te2 if te2 is not None else EM, "")
+    ba2 = met.methods(met.cls("MetricsStore"))["bulk_add"]
+    ok = any(isinstance(n, ast.If) and u(n.test) == params_of(ba2)[1] for n in ba2.body)
+    chk.ob("O7.10", "bulk_add ignores an empty (None) hand-over", ok, ba2, "")
+
     # ---- O7.8 store before exit ----------------------------------------------------------------------------------------------------------------
     chk.rule("O7.8", "BenchmarkComplete handling stores the metrics before the driver is told to exit", 1, "the final batch is lost")
     h = bam.get("receiveMsg_BenchmarkComplete")
@@ -373,6 +400,8 @@ VARIANTS = [
     V("seed m1: final drain only when a future exists", "break", _D, "                self.executor_future.result()\n            self.send_samples()", "                self.executor_future.result()\n                self.send_samples()", "O7.9"),
     V("JoinPointReached before final drain", "break", _D, "            self.send_samples()\n            self.cancel.clear()\n            self.complete.clear()\n            self.executor_future = None\n            self.sampler = None\n            self.send(self.driver_actor, JoinPointReached(self.worker_id, task_allocations))",
       "            self.send(self.driver_actor, JoinPointReached(self.worker_id, task_allocations))\n            self.send_samples()\n            self.cancel.clear()\n            self.complete.clear()\n            self.executor_future = None\n            self.sampler = None", "O7.9"),
+    V("ES buffer emptied before sending", "break", _M, "            self._client.bulk_index(index=self._index, items=self._docs)\n            sw.stop()", "            docs, self._docs = self._docs, []\n            self._client.bulk_index(index=self._index, items=self._docs)\n            sw.stop()", "O7.10"),
+    V("ES buffer never emptied", "break", _M, "                sw.total_time(),\n            )\n        self._docs = []", "                sw.total_time(),\n            )", "O7.10"),
     # preserving
     V("tuple-swap snapshot", "keep", _D, "        raw_samples = self.raw_samples\n        self.raw_samples = []\n        self.sample_post_processor(raw_samples)", "        raw_samples, self.raw_samples = self.raw_samples, []\n        self.sample_post_processor(raw_samples)"),
     V("extend instead of +=", "keep", _D, "            self.raw_samples += samples", "            self.raw_samples.extend(samples)"),
